@@ -31,6 +31,8 @@ def close_case(draw, tier="quick"):
             "side": draw(st.integers(0, 1)),
             "k_other": draw(st.one_of(st.none(), st.none(), kk)),
             "again": draw(st.sampled_from([None, None, 0, 5, 200])),
+            # a second close() on the same side that many loop handles after the first one started (overlapping it)
+            "k_same": draw(st.one_of(st.none(), st.none(), st.integers(1, 5), st.integers(1, 60))),
             "yields": draw(st.integers(0, 3)),
             # things an application may do on the way: stop one transceiver, start a second negotiation round
             "extras": draw(st.lists(st.tuples(st.sampled_from(["stop-transceiver", "reoffer", "reoffer", "peer-goes-away"]), st.integers(1, 6), st.integers(0, 1)).map(list),
@@ -106,6 +108,30 @@ class Scenario:
         if idx in self.close_tasks or idx >= len(self.pcs):
             return
         self.close_tasks[idx] = asyncio.Task(self.do_close(idx, loop), loop=loop, eager_start=True, name=f"harness-close-{idx}")
+
+    async def do_overlapping_close(self, idx: int, loop: vloop.VLoop) -> None:
+        """A second close() on the same connection while the first one is still running: it, too, only returns once the
+        connection is closed."""
+        pc = self.pcs[idx]
+        try:
+            async with asyncio.timeout(60):
+                await pc.close()
+        except Exception as exc:
+            self.fail("overlapping-close-raised:" + type(exc).__name__, f"a close() overlapping another one on pc {idx} raised / hung: {exc!r}")
+            return
+        states = (pc.signalingState, pc.iceConnectionState, pc.connectionState)
+        if states != ("closed", "closed", "closed"):
+            self.fail("overlapping-close-returned-early", f"pc {idx}: a close() issued while another close() was in progress returned with "
+                                                          f"signaling/ice/connection state = {states} (first close() started in state "
+                                                          f"{self.close_started_state.get(idx)})")
+
+    def inject_overlapping(self, idx: int, loop: vloop.VLoop) -> None:
+        first = self.close_tasks.get(idx)
+        if first is None or first.done() or ("overlap", idx) in self.close_tasks:
+            return
+        self.classes.add("overlapping-close")
+        self.close_tasks[("overlap", idx)] = asyncio.Task(self.do_overlapping_close(idx, loop), loop=loop, eager_start=True,
+                                                           name=f"harness-close-again-{idx}")
 
     async def call(self, name: str, coro_fn):
         """One API call of the driver; once a close has been injected its failures are expected."""
@@ -192,6 +218,7 @@ class Scenario:
             self.pcs[0].createDataChannel("x")
         side = case.get("side", 0) % 2
         k, k_other = case.get("k", 1), case.get("k_other")
+        k_same = case.get("k_same") if isinstance(case.get("k_same"), int) and case.get("k_same") > 0 else None
         base = loop.handles_run
 
         def hook(n: int) -> None:
@@ -200,6 +227,8 @@ class Scenario:
                 self.inject(side, loop)
             if k_other is not None and rel == k_other:
                 self.inject(1 - side, loop)
+            if k_same is not None and rel == k + k_same:
+                self.inject_overlapping(side, loop)
 
         loop.before_handle = hook
         driver = asyncio.ensure_future(self.driver(loop, logs, made))
@@ -336,7 +365,7 @@ def run_close(case: dict) -> Outcome:
         classes.add("at-connection=" + started[1])
         if started[3]:
             classes.add("during=" + started[3])
-    if len(sc.close_tasks) > 1:
+    if len([k for k in sc.close_tasks if isinstance(k, int)]) > 1:
         classes.add("both-sides")
     nt = bool(started) and (started[3] is not None or started[1] in ("connecting",) or started[2] == "checking"
                             or started[0] != "stable") and "close-after-scenario" not in classes
